@@ -450,6 +450,11 @@ pub fn encode_with_fixed_block_size<T: Source>(
     Ok(stream)
 }
 
+#[cfg(flacenc_verif)]
+pub(crate) fn verif_determine_worker_count(config: &config::Encoder) -> Option<usize> {
+    determine_worker_count(config).ok()
+}
+
 #[cfg(test)]
 mod tests {
     use super::*;
